@@ -24,7 +24,7 @@ ROUTES = ("attr", "dotted", "ctor", "load_tree", "submap", "cmdline", "reset")
 
 
 NUM_STRS = ("x", "", " 12 ", "0x1", "1e3")
-TXT_STRS = ("", "Ab", "xyz", "ABCD", " a", "TRUE")
+TXT_STRS = ("", "Ab", "xyz", "ABCD", " a", "TRUE", "\u0130\u0130")  # last: lower() doubles its length
 NUM_FLOATS = (2.5, -0.0, 7.0, float("inf"), float("nan"), -3.9)
 
 
